@@ -820,3 +820,42 @@ def bridged_chains(draw, dist=(2000, 2499)):
     pdbio.renumber_serials(ents)
     ents.append(ter_line(pdbio.atoms_of(ents)[-1]))
     return ents, {"direction": d, "length_mA": length, "offset_mA": off}
+
+
+def with_alternate_location(entries, pick, renumber_from=None):
+    """Copy of ``entries`` in which one protein residue (the ``pick``-th with side-chain atoms) carries its side chain
+    twice, as alternate locations A and B (B displaced by a few hundredths of an Angstrom), so that the input has two
+    conformations.  With ``renumber_from`` every chain is first renumbered consecutively from that number, which makes
+    the residue numbers of different chains overlap.  Returns (entries, changed)."""
+    ents = [e.copy() if isinstance(e, Atom) else e for e in entries]
+    if renumber_from is not None:
+        counters = {}
+        for (m, c, n, i, t), ats in pdbio.residues(ents):
+            k = counters.get((m, c), renumber_from)
+            counters[(m, c)] = k + 1
+            for a in ats:
+                a.resnum, a.icode = k, " "
+    cands = [ats for (m, c, n, i, t), ats in pdbio.residues(ents)
+             if ats[0].rec == "ATOM" and all(a.alt == " " for a in ats)
+             and any(a.aname not in pdbio.BACKBONE and a.aname not in pdbio.TERMINAL_O for a in ats)]
+    if not cands:
+        return ents, False
+    ats = cands[pick % len(cands)]
+    side = [a for a in ats if a.aname not in pdbio.BACKBONE and a.aname not in pdbio.TERMINAL_O]
+    taken = {a.xyz for a in pdbio.atoms_of(ents)}
+    copies = []
+    for a in side:
+        b = a.copy()
+        b.alt = "B"
+        b.x, b.y, b.z = a.x + 40, a.y - 30, a.z + 20
+        while b.xyz in taken:
+            b.x += 1
+        taken.add(b.xyz)
+        copies.append(b)
+        a.alt = "A"
+    out = []
+    for e in ents:
+        out.append(e)
+        if e is ats[-1]:
+            out.extend(copies)
+    return out, True
